@@ -1,3 +1,4 @@
+import Gtree.Lemmas.EntryFacts
 import Gtree.Lemmas.SourceConfig
 import Gtree.Model.Api
 import Gtree.Lemmas.JsonTree
@@ -91,4 +92,14 @@ theorem C04_encoding_option_in_the_source (os : List Opt) :
     (newConfig (os.map Opt.fn)).encode = lastEncode encodeDefault os := by
   rw [newConfig_src, encode_fold]
   rfl
+end Gtree
+
+namespace Gtree
+/-- Fact regenerated from the sources on this run: every Output entry point, under both of its names, builds its configuration with `newConfig` — the constructor that keeps the encoding option (`C04_encoding_option_in_the_source`). -/
+theorem C04_facts_entry_points_configuration : Facts.entryConfig = expectedEntryConfig := entryConfig_as_expected
+
+/-- Fact regenerated from the sources on this run: every deprecated alias (`Output`, `Mkdir`, `Verify`, `Walk`,
+    `OutputProgrammably`, `MkdirProgrammably`, `VerifyProgrammably`, `WalkProgrammably`, `WalkIterProgrammably`) has, word for
+    word, the body of the function that replaces it. -/
+theorem C04_facts_aliases_identical : Facts.aliasBodiesEqual.all (fun e => e.2) = true := aliases_identical
 end Gtree
